@@ -36,7 +36,7 @@ MIN_HITS = {
         'mon:size': 30000, 'mon:count': 30000, 'mon:window': 40000, 'mon:balance': 20000, 'mon:cover': 18000,
         'mon:cyclic': 9000, 'mon:reshuffle': 800, 'mon:reiterate': 40000, 'concurrent-iterators': 3000, 'mon:rows': 50000, 'mon:readonly': 30000,
         'count:epochs': 1500, 'count:epochs-drop': 1500, 'count:steps': 5000, 'count:min-epochs-steps': 15000,
-        'count:infinite': 1000, 'straddle>=2': 4000, 'B>N': 10000, 'seed=None': 5000, 'big-dataset': 9,
+        'count:infinite': 1000, 'straddle>=2': 4000, 'B>N': 10000, 'seed=None': 5000, 'big-dataset': 9, 'many-epochs-exact-multiple': 200,
     },
     'thorough': {
         'mon:size': 90000, 'mon:count': 90000, 'mon:window': 140000, 'mon:balance': 70000, 'mon:cover': 60000,
@@ -329,6 +329,16 @@ def run(ctx):
     skip = bool(rng.rand() < 0.1)
     seed = None if rng.rand() < 0.25 else int(rng.randint(0, 2**32 - 1))
     guarded(ctx, run_point, ctx, cd, rng, n, b, e, s, drop, skip, seed, cut=cut)
+
+  # many epochs: (N, B, E) with 7 <= E <= 16 where N*E is an exact multiple of B although B does not divide N (a batch count
+  # computed in floating point lands one ulp off there), plus their neighbours; both remainder modes
+  trip = [(n_, b_, e_) for e_ in range(7, 17) for b_ in range(2, 24) for n_ in range(2, 64)
+          if n_ % b_ and (n_ * e_) % b_ == 0]
+  for cid, rng in ctx.cases('epochs', 240 if ctx.quick else 2400):
+    i = int(cid.split('/')[1])
+    n, b, e = trip[(i * 7919 + int(rng.randint(len(trip)))) % len(trip)] if i >= 4 else [(29, 7, 7), (15, 11, 11), (58, 14, 7), (30, 22, 11)][i]
+    ctx.count('many-epochs-exact-multiple')
+    guarded(ctx, run_point, ctx, cd, rng, n, b, e, None, bool(i % 2), bool(rng.rand() < 0.3), int(rng.randint(0, 2**32 - 1)))
 
   # big datasets (integer-width and chunk boundaries of any index buffer): N around 2^15, 2^16 and beyond, large batches,
   # two to three windows each; every value class of N is hit in both tiers
